@@ -50,8 +50,13 @@ Corruptions(l) ==
   \cup {[f |-> "slot", k |-> "color", i |-> i, v |-> v] : i \in 1..Len(l.slots), v \in {0, 1, 2}}
   \cup {[f |-> "slot", k |-> "nlen", i |-> i, v |-> v] : i \in 1..Len(l.slots), v \in {0, 1, 2, 4, 63, 64, 66, 200}}
   \cup {[f |-> "slot", k |-> "start", i |-> i, v |-> v] : i \in 1..Len(l.slots), v \in CellClasses(Len(l.fat), 0)}
+  \* start sectors of small streams are mini sector ids: every id up to just beyond the MiniFAT
+  \cup {[f |-> "slot", k |-> "start", i |-> i, v |-> v] :
+          i \in {j \in 1..Len(l.slots) : l.slots[j].type = 2}, v \in 0..(Len(l.minifat) + 1)}
   \cup UNION {{[f |-> "slot", k |-> "size", i |-> i, v |-> v] : v \in SizeClasses(l.slots[i].size)} : i \in 1..Len(l.slots)}
-  \cup {[f |-> "flen_delta", k |-> "", i |-> 0, v |-> v] : v \in {-1, -7, 1 - SLen, -SLen, -SLen - 1, 1, 7, SLen - 1, SLen, SLen + 1}}
+  \cup {[f |-> "flen_delta", k |-> "", i |-> 0, v |-> v] : v \in {-1, -7, 1 - SLen, -SLen, -SLen - 1, 1, 7, SLen - 1, SLen, SLen + 1, 3 * SLen,
+                 \* more sectors than the FAT sectors of the file can describe
+                 (Len(l.fatsecs) * FatPer - l.nsec + 2) * SLen}}
   \cup {[f |-> "flen_abs", k |-> "", i |-> 0, v |-> v] : v \in {0, 7, 511, 512, 513, SLen, SLen + 1, 2 * SLen - 1}}
 
 Apply(l, c) ==
